@@ -1,5 +1,5 @@
 /- Spec/Scores.lean — the pair filters ("is (a, b) a neighbour pair, with which value") of each mode. -/
-import Prs.Model.Lev
+import Prs.Proofs.LevDP
 namespace Prs
 variable {α : Type} [DecidableEq α]
 
